@@ -11,6 +11,10 @@ def parseStack : Nat → Nat → List String → Option Stack
   | 0, _, _ => none
   | _ + 1, _, [] => some []
   | fuel + 1, fid, t :: rest =>
+    -- `none` / `empty` (an Option layer that is None, an empty Vec) are absent; `b:` `o:` `v:` `r:` `i:`
+    -- prefixes name pass-through wrappers (C09): erased
+    if t == "none" || t == "empty" then parseStack fuel fid rest else
+    let t := (t.splitOn ":").getLast?.getD t
     match t.toList with
     | 'P' :: n => do
       let n ← (String.ofList n).toNat?
